@@ -37,6 +37,17 @@ E3 crash-point enumeration (DESIGN 2.3 / 4 C14) on the real ``openfilter.filter_
   (nothing skipped); a record delivered again lies at or after c (only the unsaved tail is repeated); within one
   incarnation nothing is repeated; a drained reader has delivered every record that is still on disk.
 
+* Concurrent saves (conc_cases(), part concurrent_saves): RollLog is internally locked so that several threads may use one
+  object (a periodic saver thread next to the thread that reads and finally calls close()).  From a few reader states, TWO
+  threads of the one reader object save its position at the same time - A: write_head() against B: read() x n, then
+  write_head() or close(); or A: write_head(p1) against B: write_head(p2) with two positions the reader really had - and
+  EVERY interleaving of the two threads at file-system-operation granularity is executed: both real calls run in threads, the
+  shim's choke point hands a baton over before every intercepted operation (and before each thread's first step), the
+  reader's lock is wrapped so that a thread waiting for it is known to be not enabled, and a depth-first enumeration of the
+  scheduler's choices (re-executing the history from scratch for each) covers every merge order of the two operation
+  sequences.  Afterwards the reader process is gone; a new reader must construct from what is on disk at one of the two
+  positions (resolve() as above), is drained, shuts down cleanly and is restarted once more.  Bound: 2 threads, <= 2 saves.
+
 A crash is a process stop: completed system calls persist in program order (no power-loss reordering: write_head does
 not fsync, which is outside the property's "stopped at any instant").
 """
@@ -44,6 +55,8 @@ not fsync, which is outside the property's "stopped at any instant").
 import builtins
 import json
 import os
+import queue
+import threading
 
 from mc import common
 from . import c13
@@ -65,6 +78,7 @@ class Shim:
         self.dead   = False
         self.plan   = None   # ('before', j) | ('after', j) | ('torn', j, p) | ('before-kind', {kinds}) | ('torn-first', frac)
         self.trace  = []     # [(kind, file name, nbytes | None)]
+        self.sched  = None   # Sched while two threads save concurrently: every operation is a scheduling point
 
     def arm(self, plan):
         self.active = True
@@ -82,6 +96,9 @@ class Shim:
 
         if self.dead:        # the process is gone; this call is an artefact of unwinding the Python stack
             return None
+
+        if self.sched is not None:   # wait here until the scheduler lets this thread perform the operation
+            self.sched.point(kind, os.path.basename(path) if isinstance(path, str) else str(path))
 
         j    = len(self.trace)
         plan = self.plan
@@ -281,6 +298,205 @@ def install():
     return rl, _shim
 
 
+# ---- two threads of one reader: baton scheduler ------------------------------------------------------------------------------
+
+class Killed(BaseException):
+    pass
+
+
+class Proc:
+    def __init__(self, id, name):
+        self.id     = id
+        self.name   = name
+        self.state  = 'new'    # 'running' | 'parked' (before an operation) | 'lockwait' (wants the reader's lock) | 'done'
+        self.at     = None     # (kind, file name) of the operation it is parked before
+        self.go     = threading.Semaphore(0)
+        self.exc    = None
+        self.thread = None
+
+
+class Sched:
+    """Runs the threads of one execution one at a time.  A thread stops before every intercepted file-system operation
+    (Shim.op), before its first step ('start') and when it wants the reader's lock while the other thread holds it
+    (SchedLock); the scheduler then picks which thread goes on: the choices listed in `prefix`, after that always the
+    first enabled thread.  `trace` = [(enabled thread ids, chosen id)] of every choice made, `log` = what ran, in order.
+
+    A thread that neither reaches a scheduling point nor ends within PATIENCE seconds after it was let go is taken to be
+    blocked on something the harness does not model (a lock other than RollLog.lock): it is not enabled until it
+    reports; the others go on.  This never happens on a tree that only uses RollLog.lock."""
+
+    PATIENCE = 2.0
+    GIVE_UP  = 30.0
+
+    def __init__(self, prefix=(), lenient=False):
+        self.prefix    = tuple(prefix)
+        self.lenient   = lenient    # replay of a recorded schedule on another tree: a choice that is not enabled there (the thread
+                                    # waits for the lock) is replaced by the first enabled one
+        self.procs     = []
+        self.by_ident  = {}
+        self.reports   = queue.SimpleQueue()
+        self.trace     = []
+        self.log       = []
+        self.aborted   = False
+        self.lockwaits = 0
+        self.unknown   = 0
+
+    def spawn(self, name, body):
+        p = Proc(len(self.procs), name)
+
+        p.thread = threading.Thread(target=self._main, args=(p, body), name=f'c14-{name}', daemon=True)
+
+        self.procs.append(p)
+
+    def _main(self, p, body):
+        self.by_ident[threading.get_ident()] = p
+
+        try:
+            self._park(p, 'parked', ('start', ''))
+
+            body()
+
+        except Killed:
+            pass
+
+        except BaseException as exc:
+            p.exc = exc
+
+        finally:
+            p.state = 'done'
+
+            self.reports.put(p.id)
+
+    def _park(self, p, state, at):
+        if self.aborted:
+            raise Killed()
+
+        p.at    = at
+        p.state = state
+
+        self.reports.put(p.id)
+        p.go.acquire()
+
+        if self.aborted:
+            raise Killed()
+
+    def current(self):
+        return self.by_ident.get(threading.get_ident())
+
+    def point(self, kind, name):
+        if (p := self.current()) is not None:   # not one of the scheduled threads: the harness itself
+            self._park(p, 'parked', (kind, name))
+
+    def lock_wait(self, p):
+        self.lockwaits += 1
+
+        self._park(p, 'lockwait', ('lock', ''))
+
+    def abort(self):
+        self.aborted = True
+
+        for p in self.procs:
+            p.go.release()
+
+        for p in self.procs:
+            if p.thread.ident is not None:
+                p.thread.join(5)
+
+    def run(self, lock):
+        for p in self.procs:
+            p.state = 'running'
+
+            p.thread.start()
+
+        waited = 0.0
+
+        while True:
+            while any(p.state == 'running' for p in self.procs):   # the thread that was let go reports (parked / lockwait / done)
+                try:
+                    self.reports.get(timeout=self.PATIENCE)
+                except queue.Empty:
+                    self.unknown += 1
+
+                    break
+
+            enabled = [p.id for p in self.procs if p.state == 'parked' or (p.state == 'lockwait' and lock.owner is None)]
+
+            if not enabled:
+                if all(p.state == 'done' for p in self.procs):
+                    break
+
+                if not any(p.state == 'running' for p in self.procs) or waited > self.GIVE_UP:
+                    raise RuntimeError(f'harness: deadlock, threads {[(p.name, p.state, p.at) for p in self.procs]}, log {self.log}')
+
+                waited += self.PATIENCE
+
+                continue
+
+            k  = len(self.trace)
+            ch = self.prefix[k] if k < len(self.prefix) else enabled[0]
+
+            if ch not in enabled and self.lenient:
+                ch = enabled[0]
+
+            if ch not in enabled:
+                raise RuntimeError(f'harness: nondeterministic schedule, choice {k} of {self.prefix} is not enabled ({enabled}), log {self.log}')
+
+            self.trace.append((tuple(enabled), ch))
+
+            p = self.procs[ch]
+
+            if p.state == 'parked':
+                self.log.append((p.name,) + p.at)
+
+            p.state = 'running'
+
+            p.go.release()
+
+        for p in self.procs:
+            p.thread.join()
+
+
+class SchedLock:
+    """Stands in for RollLog.lock (a re-entrant lock, used by rolllog as a context manager) while the scheduler runs: a
+    thread that finds it held by the other thread stops at a scheduling point and is not enabled until it is free."""
+
+    def __init__(self, sched):
+        self.sched = sched
+        self.owner = None
+        self.depth = 0
+
+    def acquire(self, blocking=True, timeout=-1):
+        me = self.sched.current() or 'harness'
+
+        while self.owner is not None and self.owner is not me:
+            if not blocking or me == 'harness':
+                return False
+
+            self.sched.lock_wait(me)
+
+        self.owner  = me
+        self.depth += 1
+
+        return True
+
+    def release(self):
+        if self.owner is not (self.sched.current() or 'harness'):
+            raise RuntimeError('cannot release un-acquired lock')
+
+        self.depth -= 1
+
+        if not self.depth:
+            self.owner = None
+
+    def __enter__(self):
+        return self.acquire()
+
+    def __exit__(self, *exc):
+        self.release()
+
+        return False
+
+
 # ---- reference model -----------------------------------------------------------------------------------------------------
 
 class Model(c13.Model):
@@ -345,12 +561,12 @@ class Model(c13.Model):
         except Violation as v:
             raise Violation('C14/restart-position-wrong', f'{what} {pos!r} is no position in the log: {v.what}')
 
-    def on_restart(self, told, c, i):
+    def on_restart(self, told, c, i, also=()):
         self.inc += 1
         self.now  = set()
         self.last = -1
 
-        ok = {self.resolve(c)} | ({self.resolve(i)} if i is not None else set())
+        ok = {self.resolve(c)} | ({self.resolve(i)} if i is not None else set()) | {self.resolve(p) for p in also}
 
         if told not in ok and self.ANY not in ok:
             raise Violation('C14/restart-position-wrong', f'after restart tell() = {told!r}; allowed: resolve(last completed save '
@@ -454,7 +670,7 @@ class Exec:
 
     # -- restart + oracle
 
-    def open_reader(self, m, c, i, why):
+    def open_reader(self, m, c, i, why, also=()):
         H.Clock.now_us = m.max_ts() + H.SEC // 2
 
         try:
@@ -470,7 +686,7 @@ class Exec:
                 f'head file holds {content!r} [{m.describe()}]')
 
         try:
-            m.on_restart(tuple(r.tell()), c, i)
+            m.on_restart(tuple(r.tell()), c, i, also)
         except Violation:
             self.abandon(r)
 
@@ -665,6 +881,117 @@ class Exec:
             if not crashed:
                 raise RuntimeError('harness: close() did not reach the last file-system operation of the save')
 
+    # -- two threads of this reader save at the same time
+
+    def concurrent(self, variant, prefix=(), lenient=False):
+        """One schedule of: A: write_head() || B: read() x n, write_head() ('N') or close() ('C'); or, 'E': A: write_head(p1)
+        || B: write_head(p2), p1 = the position now, p2 = the position n reads later.  Then the reader process is gone:
+        restart (at resolve(p1) or resolve(p2)), drain, clean close(), restart.  -> (Sched, info)"""
+
+        m, r  = self.m, self.r
+        kind  = variant['kind']
+        reads = variant['reads']
+        p0    = m.c
+        p1    = tuple(r.tell())
+        got   = {}
+
+        if kind == 'E':
+            for _ in range(reads):
+                self.step('r')
+
+            got['p2'] = tuple(r.tell())
+
+            a = lambda: r.write_head(p1)
+            b = lambda: r.write_head(got['p2'])
+
+        else:
+            a = r.write_head
+
+            def b():
+                for _ in range(reads):
+                    self.step('r')
+
+                got['p2'] = tuple(r.tell())
+
+                (r.close if kind == 'C' else r.write_head)()
+
+        sched  = Sched(prefix, lenient)
+        real   = r.lock
+        r.lock = lock = SchedLock(sched)
+
+        sched.spawn('A', a)
+        sched.spawn('B', b)
+
+        self.shim.arm(None)
+
+        self.shim.sched = sched
+
+        try:
+            sched.run(lock)
+
+        except BaseException:
+            sched.abort()
+
+            raise
+
+        finally:
+            self.shim.sched = None
+
+            self.shim.disarm()
+
+            r.lock = real
+
+        self.sched, self.info = sched, None
+
+        for p in sched.procs:
+            if isinstance(p.exc, Violation) or (p.exc is not None and 'p2' not in got):
+                raise p.exc
+
+        p2     = got['p2']
+        raised = [f'{p.name}: {type(p.exc).__name__}: {p.exc}'.replace(self.sdir + os.sep, '') for p in sched.procs if p.exc is not None]
+        order  = ' '.join(f'{n}:{k}' + (f'({f})' if f else '') for n, k, f in sched.log)
+        what   = {'N': f'A: write_head() || B: {reads} x read(), write_head()', 'C': f'A: write_head() || B: {reads} x read(), close()',
+                  'E': 'A: write_head(p1) || B: write_head(p2)'}[kind]
+        why    = (f'two threads of one reader saved its position at the same time ({what}; p1 = {p1!r}, p2 = {p2!r}; their steps '
+                  f'ran in the order [{order}]' + (f'; raised: {raised}' if raised else '') + ')')
+        idx    = {p: m.index_of(p, 'saved position') for p in (p1, p2)}
+        lo     = min((p1, p2), key=lambda p: idx[p])
+
+        m.c, m.c_idx = lo, idx[lo]   # a record delivered again must lie at or after the earlier of the two saved positions
+
+        disk = self.state_files()
+        info = {'order': order, 'raised': len(raised), 'lockwaits': sched.lockwaits, 'unknown_blocks': sched.unknown,
+                'steps': len(sched.log), 'distinct_positions': p1 != p2, 'shorter_later': len(json.dumps(p2)) < len(json.dumps(p1)),
+                'temp_left': 'head.json.tmp' in disk}
+
+        self.info = info
+
+        self.abandon(r)
+
+        self.r = r2 = None
+
+        try:
+            r2   = self.open_reader(m, p1, p2, why, (p0,) if raised else ())
+            told = tuple(r2.tell())
+
+            info['resumed_at'] = 'p1=p2' if p1 == p2 else 'p1' if told == m.resolve(p1) else 'p2' if told == m.resolve(p2) else 'other'
+
+            self.drain(r2, m, f'incarnation after {why}')
+
+            pos = tuple(r2.tell())
+
+            r2.close()
+
+            self.saved(m, pos)
+
+            r2 = None
+            r2 = self.open_reader(m, pos, None, f'a clean close() at {pos!r} of the incarnation that followed: {why}')
+
+        finally:
+            self.abandon(r2)
+
+        return sched, info
+
     # -- enabled operations / one operation
 
     def enabled(self):
@@ -805,6 +1132,111 @@ def execute(cfg, ops, leaf=False, full=True):
         ex.close()
 
 
+def conc_execute(cfg, hist, variant, prefix=(), lenient=False):
+    """One schedule of two concurrent saves at the state `hist` reaches.  -> (violation | None, choices made, info)"""
+
+    ex = Exec(cfg)
+
+    try:
+        try:
+            for op in hist:
+                ex.step(op)
+        except Violation as v:
+            raise RuntimeError(f'harness: the history {hist} of a concurrent-saves case violates by itself: {v.sig} {v.what}')
+
+        try:
+            sched, info = ex.concurrent(variant, prefix, lenient)
+        except Violation as v:
+            return Violation('C14/concurrent-saves-' + v.sig.split('/', 1)[1], v.what), ex.sched.trace, ex.info
+
+        return None, sched.trace, info
+
+    finally:
+        ex.close()
+
+
+CONC_CAP = 5000   # schedules per case
+
+
+def conc_cases(tier):
+    """[(cfg, history, variant)].  file_size 100 with a 100-byte record W and 4-byte records w: the position after W is
+    (file0, 100), one read later it is (file1, 4) - the later position has the SHORTER text; (file1, 4) -> (file1, 8): equal
+    length; (file0, 4) -> (file0, 104): longer; with and without an earlier completed save (head file present)."""
+
+    quick = tier == 'quick'
+    out   = []
+
+    for mode in ('txt',) if quick else ('txt', 'bin', 'json'):
+        nl  = 0 if mode == 'bin' else 1
+        cfg = {'name': 'concurrent-saves', 'mode': mode, 'file_size': 100, 'total_size': 1000, 'small': 4 - nl, 'big': 100 - nl,
+               'crashes': 0, 'full_torn_depth': -1}
+
+        states = [(('W', 'w', 'w', 'r'), 'NCE'), (('W', 'w', 'w', 'r', 'r'), 'N' if quick else 'NCE'), (('w', 'W', 'w', 'r'), 'NE' if quick else 'NCE'),
+                  (('W', 'w', 'w', 'r', 's'), 'NC' if quick else 'NCE'), (('W', 'w', 'w'), 'N' if quick else 'NCE')]
+
+        if mode == 'bin':   # a read returns the rest of the file: the second state's second read finds nothing
+            states[1] = (('W', 'w', 'r', 'r', 'w'), 'NCE')
+
+        for hist, kinds in states:
+            for kind in kinds:
+                for reads in (1,) if quick else (1, 2):
+                    out.append((cfg, hist, {'kind': kind, 'reads': reads}))
+
+    return out
+
+
+def _conc(item):
+    """Worker: every schedule of one concurrent-saves case (depth-first over the scheduler's choices, each schedule is
+    executed from scratch)."""
+
+    import time
+
+    t0 = time.process_time()
+
+    cfg, hist, variant = item
+    stack  = [()]
+    stats  = {}
+    orders = set()
+    viols  = {}
+    n      = 0
+
+    def count(k, v=1):
+        stats[k] = stats.get(k, 0) + v
+
+    while stack and n < CONC_CAP:
+        prefix = stack.pop()
+        n     += 1
+
+        v, trace, info = conc_execute(cfg, hist, variant, prefix)
+
+        if v is not None:   # the schedule is the prefix plus "first enabled" from there on: replay() re-runs exactly that
+            viols.setdefault(v.sig, (v.what, list(prefix)))
+            count('violating_schedules')
+
+        if info is not None:
+            orders.add(info['order'])
+
+            for k in ('raised', 'lockwaits', 'unknown_blocks'):
+                count(f'schedules_with_{k}', 1 if info[k] else 0)
+
+            count('schedules_in_which_the_saves_write_different_positions', 1 if info['distinct_positions'] else 0)
+            count('schedules_whose_later_position_has_the_shorter_text', 1 if info['shorter_later'] else 0)
+            count('schedules_that_leave_a_temp_file', 1 if info['temp_left'] else 0)
+            count('resumed_at_' + info.get('resumed_at', 'nothing'))
+
+            stats['max_steps_of_both_threads'] = max(stats.get('max_steps_of_both_threads', 0), info['steps'])
+            stats['max_choice_points']         = max(stats.get('max_choice_points', 0), sum(1 for en, _ in trace if len(en) > 1))
+
+        for i in range(len(prefix), len(trace)):
+            en, ch = trace[i]
+
+            for alt in en:
+                if alt != ch:
+                    stack.append(tuple(c for _, c in trace[:i]) + (alt,))
+
+    return cfg, hist, variant, n, bool(stack), len(orders), stats, viols, time.process_time() - t0
+
+
 # ---- search ------------------------------------------------------------------------------------------------------------
 
 def plans(tier):
@@ -911,7 +1343,12 @@ def _run(rep):
     if rep.only:
         _PLANS = [(c, d) for c, d in _PLANS if rep.only in cfg_name(c)]
 
-    maxd  = max(d for _, d in _PLANS)
+    conc = [c for c in conc_cases(rep.tier) if not rep.only or rep.only in cfg_name(c[0])]
+
+    if not _PLANS and not conc:
+        raise RuntimeError(f'harness: --only {rep.only!r} matches no configuration')
+
+    maxd  = max([d for _, d in _PLANS], default=-1)
     quick = rep.tier == 'quick'
 
     rep.set('rule', 'a case = one history (operation sequence of writer and head-owning reader, incl. crash operations) of one '
@@ -931,6 +1368,16 @@ def _run(rep):
         'contents, position to be saved)' + ('' if quick else ' and at every state up to history length 6') +
         ', shortest/middle/longest prefix at the other states'
         '; shortest/middle/longest prefix in close()')
+    rep.assumption('concurrent saves (part concurrent_saves): bound = 2 threads of one reader object, each making one save '
+        '(write_head(), write_head(position) or close(); one of them after 1' + ('' if quick else ' or 2') + ' read()), from the reader '
+        'states listed in conc_cases(); EVERY interleaving of the two threads is executed, at the granularity of the intercepted '
+        'file-system operations (open / write / close / rename / ... of the head and temp file) plus each thread\'s first step; '
+        'Python code between two such operations runs without a switch (under the GIL rolllog has no other shared state than '
+        'the reader object, which RollLog.lock protects); a thread that waits for RollLog.lock (wrapped by the harness) is not '
+        'enabled; no crash during the concurrent saves - the process stops after both threads have ended; an exception raised '
+        'by a save is not judged (close() in one thread makes write_head() in the other raise), only the restart is: it must '
+        'succeed at one of the two saved positions (or the position saved before, if a save raised), then drain, close and '
+        'restart once more')
 
     seen     = [set() for _ in _PLANS]
     leafseen = [set() for _ in _PLANS]
@@ -1003,6 +1450,36 @@ def _run(rep):
 
         frontier = nxt
 
+    # two threads of one reader save at the same time: every interleaving (one case per worker item)
+
+    cviols = []
+    cstats = {}
+    nsched = 0
+
+    for cfg, hist, variant, n, capped, norders, st, vs, dt in common.pmap_ordered(_conc, conc):
+        cpu    += dt
+        nsched += n
+
+        for k, x in st.items():
+            cstats[k] = max(cstats.get(k, 0), x) if k.startswith('max_') else cstats.get(k, 0) + x
+
+        cstats['distinct_merge_orders'] = cstats.get('distinct_merge_orders', 0) + norders
+
+        if capped:
+            rep.cap(f'concurrent saves {cfg_name(cfg)} [{" ".join(hist)}] {variant}: more than {CONC_CAP} schedules')
+
+        for sig, (what, prefix) in vs.items():
+            cviols.append((cfg, hist, variant, prefix, sig, what))
+
+    if conc:
+        rep.part('concurrent_saves', cases=len(conc), threads=2, reader_states=len({(cfg_name(c), h) for c, h, _ in conc}),
+            schedules_executed=nsched, **cstats)
+        rep.sample({'concurrent_saves_case': cfg_name(conc[0][0]), 'ops': list(conc[0][1]), 'threads': conc[0][2]})
+
+    rep.set('concurrent_save_schedules', nsched)
+
+    execs += nsched
+
     rep.add('evaluations', execs + stats.get('crash_points', 0))
     rep.set('histories_executed', execs)
     rep.set('crash_points_enumerated', stats.get('crash_points', 0))
@@ -1034,6 +1511,12 @@ def _run(rep):
         rep.violation(sig, f'{cfg_name(_PLANS[ci][0])} history [{" ".join(hist)}]{" + crash-point enumeration" if leaf else ""}: {what}',
             {'kind': 'e3', 'case': {'cfg': _PLANS[ci][0], 'ops': list(hist), 'leaf': leaf}})
 
+    for cfg, hist, variant, prefix, sig, what in cviols:
+        bysig[sig] = bysig.get(sig, 0) + 1
+
+        rep.violation(sig, f'{cfg_name(cfg)} history [{" ".join(hist)}] + threads {variant} under schedule {prefix}: {what}',
+            {'kind': 'e3', 'case': {'cfg': cfg, 'ops': list(hist), 'conc': variant, 'schedule': list(prefix)}})
+
     rep.part('violating_cases_by_signature', **bysig)
 
 
@@ -1042,6 +1525,17 @@ def replay(rec) -> bool:
     install()
 
     case = rec['case']
+
+    if 'conc' in case:
+        v, _, _ = conc_execute(case['cfg'], tuple(case['ops']), case['conc'], tuple(case['schedule']), lenient=True)
+
+        if v is None:
+            return False
+
+        print(f'C14 replay: {cfg_name(case["cfg"])} [{" ".join(case["ops"])}] + threads {case["conc"]} under schedule {case["schedule"]}: {v.sig}: {v.what}')
+
+        return rec.get('signature') in (None, v.sig)
+
     v, at, ex = execute(case['cfg'], tuple(case['ops']), leaf=bool(case.get('leaf')))
 
     if v is None:
